@@ -133,6 +133,21 @@ func treeHash() string {
 	return h
 }
 
+// shortTree is the first seven characters of the tree id (plus "+" if dirty);
+// replay file names carry it so that a later finding under the same run seed
+// does not overwrite an earlier one.
+func shortTree() string {
+	t := treeHash()
+	s := t
+	if len(s) > 7 {
+		s = s[:7]
+	}
+	if strings.HasSuffix(t, "+dirty") {
+		s += "+"
+	}
+	return s
+}
+
 // ---- known findings ----
 
 type finding struct {
